@@ -9,6 +9,8 @@ mod dna;
 mod driver;
 mod engine;
 mod gen_comp;
+mod gen_file;
+mod model_container;
 mod gen_plain;
 mod gen_stream;
 mod gen_syn;
